@@ -736,11 +736,17 @@ class Instruction:
         """
         # TODO: update reference
         # assert old in self._var_map.values()
+        replaced = False
         for name in self._var_map:
             if self._var_map[name] is old:
-                self.del_use(old)
                 self._var_map[name] = new
-                self.add_use(new)
+                replaced = True
+
+        # The same value can be used by more than one operand (x + x), but
+        # it is registered as a single use:
+        if replaced:
+            self.del_use(old)
+            self.add_use(new)
 
     def remove_from_block(self):
         for use in list(self.uses):
@@ -883,9 +889,11 @@ class FunctionCall(LocalValue):
     def replace_use(self, old, new):
         super().replace_use(old, new)
         if old in self.arguments:
-            idx = self.arguments.index(old)
-            self.del_use(old)
-            self.arguments[idx] = new
+            for idx, argument in enumerate(self.arguments):
+                if argument is old:
+                    self.arguments[idx] = new
+            if old in self.uses:
+                self.del_use(old)
             self.add_use(new)
 
     def __str__(self):
@@ -914,9 +922,11 @@ class ProcedureCall(Instruction):
     def replace_use(self, old, new):
         super().replace_use(old, new)
         if old in self.arguments:
-            idx = self.arguments.index(old)
-            self.del_use(old)
-            self.arguments[idx] = new
+            for idx, argument in enumerate(self.arguments):
+                if argument is old:
+                    self.arguments[idx] = new
+            if old in self.uses:
+                self.del_use(old)
             self.add_use(new)
 
     def __str__(self):
@@ -1019,10 +1029,11 @@ class Phi(LocalValue):
         """Replace old value reference by new value reference"""
         assert old in self.inputs.values()
         for inp in self.inputs:
-            if self.inputs[inp] == old:
-                self.del_use(old)
+            if self.inputs[inp] is old:
                 self.inputs[inp] = new
-                self.add_use(new)
+        # Several incoming branches may carry the same value:
+        self.del_use(old)
+        self.add_use(new)
 
     def set_incoming(self, block, value):
         """Set the value for the phi node when entering through block"""
@@ -1031,7 +1042,7 @@ class Phi(LocalValue):
                 f"Type mismatch {value.ty} where {self.ty} was expected"
             )
         if block in self.inputs:
-            self.del_use(self.inputs[block])
+            self.del_incoming(block)
         self.inputs[block] = value
         self.add_use(value)
 
@@ -1042,7 +1053,9 @@ class Phi(LocalValue):
     def del_incoming(self, block):
         """Remove incoming branch from this phi node and delete the usage"""
         value = self.inputs.pop(block)
-        self.del_use(value)
+        # Other incoming branches may still carry the same value:
+        if all(v is not value for v in self.inputs.values()):
+            self.del_use(value)
 
 
 class Alloc(LocalValue):
@@ -1206,9 +1219,11 @@ class InlineAsm(Instruction):
     def replace_use(self, old, new):
         super().replace_use(old, new)
         if old in self.input_values:
-            idx = self.input_values.index(old)
-            self.del_use(old)
-            self.input_values[idx] = new
+            for idx, value in enumerate(self.input_values):
+                if value is old:
+                    self.input_values[idx] = new
+            if old in self.uses:
+                self.del_use(old)
             self.add_use(new)
 
     def __str__(self):
